@@ -42,6 +42,44 @@ TECH = "Lean 4 theorems over a hand-written executable model; tie = decision exp
 NOT_APPLICABLE = {}
 
 PROPS = {
+    "C03": dict(
+        level="proof", engines=[eng("order", 300, 6000, timeout=900), eng("srv", 300, 6000, timeout=900)], labels=["C03", "C04"],
+        text="Theorems (Props/C03.lean, composing Chan and SrvConn): what is written to a node's stream is, in order, a subsequence of what was handed to its send queue, each request at most once; "
+             "the queue is FIFO (popped is a prefix of pushed); the server starts handlers in receive order, once each; hence over one connection the start order is a duplicate-free subsequence of "
+             "the hand-off order and no request overtakes another (start_order, no_overtaking). Tie: plain hand-off statements in all per-node loops and the send-queue capacity regenerated from the tree; "
+             "digests of enqueue/sender/sendMsg/newChannel/NodeStream and of the six issuing functions; engine order runs mixed-call programs with stragglers, send buffers {0,1,4,64}, large payloads and "
+             "explicit releases and lets the Lean model judge every node's start order; engine srv checks per-connection traces.",
+        note="Trusted: Lean kernel; gRPC delivers a stream's messages in order at most once; Go channels are FIFO; happens-before between two calls implies the first call's hand-offs completed before the second's "
+             "begin (hand-offs are plain statements of the issuing function). Connections on which a reconnection happened during a program are excluded from the completeness claim.",
+    ),
+    "C05": dict(
+        level="proof", engines=[eng("xtalk", 4000, 100000, timeout=900), eng("qc", 1500, 30000)], labels=["C05"],
+        text="Theorems (Props/C05.lean) over the node-channel LTS Chan (router table, send queue, sender, receiver, stream-down, deferred deletion), invariant proved inductive over all label sequences: "
+             "every delivery goes to the call that registered the id (ids registered at most once); at most one delivery per non-streaming request; a reply without router is dropped and changes nothing; "
+             "stream-down answers every pending request with an error. Tie: deletion guards regenerated from routeResponse / cancelPendingMsgs; digests of the router functions, getMsgID (one counter per manager), "
+             "WrapMessage and all issuing functions; engine xtalk (8..32 goroutines, overlapping configurations, late replies, mixed RPC/quorum/async/correctable/one-way) checks the (call, node) stamp of every "
+             "reply-set entry and result; engine qc checks stamps under gating.",
+        note="Trusted: Lean kernel; the hand-written LTS; 'message ids are fresh' is a precondition of the register step (justified by the digest of the manager-wide atomic counter, 64 bit, assumed not to wrap); "
+             "server-stream calls are left out of the concurrent workload because they trigger the known finding C09/stream-backpressure (their stamps are checked by engine corr).",
+    ),
+    "C18": dict(
+        level="proof", engines=[eng("xtalk", 4000, 100000, timeout=900), eng("residue", 1, 5, timeout=900), eng("corr", 800, 10000), eng("oneway", 500, 5000)], labels=["C18"],
+        text="Theorems (Props/C18.lean, invariants of Chan): once a non-streaming request has been answered no router is kept; a router that exists belongs to an unanswered request; one router per request, "
+             "bounded by the registrations; deferred deletion removes a streaming router; stream-down leaves only streaming routers. Tie: deletion guards regenerated; digests of the router functions, sendMsg and the "
+             "call goroutines; engines: xtalk (after quiescence zero routers on every node and library goroutines back to the baseline), residue (every way a call can end, sequentially, with failing sends and "
+             "contexts that end before the send), corr / oneway (zero routers after every case).",
+        note="Trusted: as C05. Goroutine exit is observed at runtime (goroutine profile filtered to library frames), not proved.",
+    ),
+    "C04": dict(
+        level="proof", engines=[eng("srv", 400, 10000)], labels=["C04"],
+        text="Theorems (Props/C04.lean) over the per-connection LTS SrvConn (receive loop, handler goroutines, the mutex, once-guarded Release, implicit release at return): the invariant "
+             "'mutex locked iff loop at top or exactly one started handler has not released' is inductive; at most one unreleased handler at every reachable state; a handler start requires "
+             "zero unreleased handlers; a second Release is a no-op and the mutex is never unlocked twice; return releases; handlers start in receive order, once each; released handlers run "
+             "concurrently; a step of one connection leaves every other connection's state and enabled steps unchanged. Tie: digests of NodeStream / Release / SendMessage / the server template; "
+             "engine srv feeds every per-connection event trace of the real server (release modes early/late/twice/helper/storm/none, up to 3 connections, one never releasing) to the Lean acceptor.",
+        note="Trusted: Lean kernel; the hand-written LTS (tied by digests and trace acceptance); sync.Mutex / sync.Once semantics; handler events are logged by the harness' handlers "
+             "(release and exit are logged just before they take effect, enter just after), which only makes the acceptor stricter.",
+    ),
     "C01": dict(
         level="proof", engines=[eng("qc", 3000, 60000)], labels=["C01", "C05"],
         text="Theorems (Props/C01.lean): success returns exactly the value the quorum function returned with 'quorum' on its last invocation; every earlier invocation said 'no quorum'; "
